@@ -315,6 +315,8 @@ impl TCheck for C13 {
             ("decode_chunk", chunk),
             ("cluster_cache", *rng.pick(&[2u64, 40])),
             ("decomp_pool_size", *rng.pick(&[1u64, 8])),
+            ("stream_short_read_pm", *rng.pick(&[0u64, 0, 250])),
+            ("stream_short_read_seed", rng.next_u64() >> 1),
         ];
         let readers = if comp == Comp::None { 1 } else { rng.range(1, 3) as usize };
         let model = Arc::new(image.model);
